@@ -825,6 +825,30 @@ pub fn gen_scenario(seed: u64) -> (ObjScenario, &'static str, Option<String>) {
         }
         if which >= 5 {
             add_reader_fault(&mut rng, &mut reader, len, &g.hot);
+            // a premature end-of-file answer is most telling inside a comment, whose tail
+            // may read like a line of its own
+            if let Some(ee) = &mut reader.early_eof {
+                let comments: Vec<(usize, usize)> = g
+                    .lines
+                    .iter()
+                    .filter_map(|&(st, ln)| {
+                        let l = &g.text[st..st + ln];
+                        let h = l.iter().position(|&b| b != b' ' && b != b'\t')?;
+                        (l[h] == b'#' && ln > h + 1).then_some((st + h + 1, st + ln))
+                    })
+                    .collect();
+                if !comments.is_empty() && rng.chance(1, 2) {
+                    let (a, b) = *rng.pick(&comments);
+                    // ... preferably right before something that reads like an item
+                    let itemish: Vec<usize> = (a..b)
+                        .filter(|&i| {
+                            let t = &g.text[i..b];
+                            t.starts_with(b"v ") || t.starts_with(b"f ") || t.starts_with(b"vt ") || t.starts_with(b"vn ")
+                        })
+                        .collect();
+                    ee.at_byte = if !itemish.is_empty() && rng.chance(2, 3) { *rng.pick(&itemish) } else { rng.usize(a, b - 1) } as u32;
+                }
+            }
         }
     }
     let via_path = rng.chance(1, 40);
